@@ -74,7 +74,29 @@ pub fn run(h: &H) {
             h.guard(idx, &desc, || molodensky_case(h, idx, &mut rng));
         } else {
             let aspect = HELMERT_ASPECTS[(idx as usize / 5) % HELMERT_ASPECTS.len()];
-            let spec = HelmertSpec::random(&mut rng, aspect);
+            let mut spec = HelmertSpec::random(&mut rng, aspect);
+            // rotation-free sets with rates (the shape of the published ITRF to ITRF parameters)
+            if aspect.starts_with("p14") && rng.chance(0.25) {
+                spec.r = [0.0; 3];
+                spec.dr = [0.0; 3];
+            }
+            // ... and sets where only one kind of rate is present
+            if aspect.starts_with("p14") && rng.chance(0.2) {
+                match rng.below(3) {
+                    0 => {
+                        spec.dt = [0.0; 3];
+                        spec.ds = 0.0;
+                    }
+                    1 => {
+                        spec.dr = [0.0; 3];
+                        spec.ds = 0.0;
+                    }
+                    _ => {
+                        spec.dt = [0.0; 3];
+                        spec.dr = [0.0; 3];
+                    }
+                }
+            }
             let def = spec.def();
             h.guard(idx, &def, || helmert_case(h, idx, aspect, &spec, &mut rng));
         }
